@@ -17,6 +17,8 @@ def plan(tier, seed):
     from mc import universe as U
 
     return [
+        {'name': 'toast_large', 'target': 'checks.c03:run_toast_large', 'x64': False, 'cases': [{'toast_n': n} for n in (300, 46337, 46349, 50021, 70001, 150001)], 'chunk': 1},
+        {'name': 'toast_large_x64', 'target': 'checks.c03:run_toast_large', 'x64': True, 'cases': [{'toast_n': n} for n in (46349, 70001)], 'chunk': 1},
         {'name': 'mutable', 'target': 'checks.c03:run_mutable', 'x64': False, 'cases': [{'np_params': n, 'use_first': u} for n in MUTABLE for u in (True, False)], 'chunk': 2},
         {'name': 'x32', 'target': TARGET, 'x64': False, 'cases': U.cases(tier, ('f32',))},
         {'name': 'x64', 'target': TARGET, 'x64': True, 'cases': U.cases('quick' if tier == 'quick' else tier, ('f64',)) if tier == 'thorough' else
@@ -128,6 +130,69 @@ def run_mutable(phase, cases, ctx):
             nontrivial.add(json.dumps(case))
         except P.LibError as e:
             violations.append({'kind': 'library-raises', 'case': case, 'detail': f'{e}\n{e.tb}'})
+    return {'n': len(cases), 'violations': violations, 'counters': counters, 'nontrivial': nontrivial, 'samples': cases[:1], 'classes': set()}
+
+
+def run_toast_large(phase, cases, ctx):
+    """Observation matrices far larger than a dense comparison allows (real ones have 147 456 rows): a sparse matrix with three
+    small-integer entries per row; A.T applied to unit vectors and to a dense vector against scipy.sparse (exact arithmetic)."""
+    import collections
+    import json
+    import os
+    import shutil
+    import tempfile
+
+    import jax.numpy as jnp
+    import numpy as np
+    import scipy.sparse as sp
+
+    from furax.toast.obs_matrix import ToastObservationMatrixOperator
+    from mc import probe as P
+
+    violations = []
+    counters = collections.Counter()
+    nontrivial = set()
+    for case in cases:
+        n = case['toast_n']
+        rows = np.repeat(np.arange(n), 3)
+        cols = np.stack([np.arange(n), (7 * np.arange(n) + 3) % n, n - 1 - np.arange(n)], axis=1).ravel()
+        vals = np.stack([np.arange(n) % 5 + 1, np.arange(n) % 3 - 4, np.arange(n) % 7 + 2], axis=1).ravel().astype(np.float32)
+        M = sp.csr_matrix((vals, (rows, cols)), shape=(n, n))
+        M.sum_duplicates()
+        M.sort_indices()
+        d = tempfile.mkdtemp(prefix='verif_toast_')
+        try:
+            path = os.path.join(d, 'obs.npz')
+            np.savez(path, format='csr', data=M.data.astype(np.float32), indices=M.indices.astype(np.int32), indptr=M.indptr.astype(np.int32), shape=np.array([n, n]))
+            op = P.lib('constructor', ToastObservationMatrixOperator, path)
+            T = P.lib('transpose', lambda: op.T)
+            vecs = {f'e{j}': j for j in (0, 1, n // 2, n - 1, min(n - 1, 46341), (5 * n) // 7)}
+            Mt = M.T.tocsr()
+            for label, j in vecs.items():
+                y = np.zeros(n, np.float32)
+                y[j] = 1
+                for name, o, ref in (('A', op, M), ('A.T', T, Mt)):
+                    got = np.asarray(P.lib('mv', o.mv, jnp.asarray(y)), np.float64)
+                    want = np.asarray(ref @ y.astype(np.float64)).ravel()
+                    counters['sparse_products'] += 1
+                    if got.shape != want.shape or not np.array_equal(got, want):
+                        bad = np.nonzero(got != want)[0][:4] if got.shape == want.shape else []
+                        violations.append({'kind': 'not-adjoint' if name == 'A.T' else 'wrong-forward-product', 'case': case,
+                                           'detail': f'{n} x {n} observation matrix, {name} applied to {label}: differs from the sparse reference at rows {list(bad)}: {got[bad] if len(bad) else got.shape} vs {want[bad] if len(bad) else want.shape}'})
+                        break
+                else:
+                    continue
+                break
+            yd = (np.arange(n) % 11 - 5).astype(np.float32)
+            got = np.asarray(P.lib('mv', T.mv, jnp.asarray(yd)), np.float64)
+            want = np.asarray(Mt @ yd.astype(np.float64)).ravel()
+            if not np.array_equal(got, want):
+                violations.append({'kind': 'not-adjoint', 'case': case, 'detail': f'{n} x {n} observation matrix: A.T applied to a dense vector differs from the sparse reference in {int((got != want).sum())} rows'})
+            nontrivial.add(json.dumps(case))
+        except P.LibError as e:
+            violations.append({'kind': 'library-raises', 'case': case, 'detail': f'{e}\n{e.tb}'})
+        finally:
+            shutil.rmtree(d, ignore_errors=True)
     return {'n': len(cases), 'violations': violations, 'counters': counters, 'nontrivial': nontrivial, 'samples': cases[:1], 'classes': set()}
 
 
